@@ -6,7 +6,10 @@
 //! with an unknown key}; the varied OPT runs through the full product of
 //! owner x CLASS (payload size) x extended-RCODE octet x version octet x flag
 //! word x RDATA; x server payload size x transport. Layouts without the
-//! varied OPT are evaluated once per server and transport.
+//! varied OPT are evaluated once per server and transport. Second family: a
+//! valid OPT whose advertised size takes every value 0..=2100 (+ 7 larger
+//! ones) on queries with 2-3 KB answers (zone `big9.`), so that truncation
+//! happens at every fill level relative to the space reserved for the OPT.
 //! Oracle: `model::scan_all` ("processing reached") + the C09 statement.
 
 use qvlib::fixtures::{self, ServerCfg};
@@ -161,10 +164,34 @@ struct Srv {
     server: Server<Cat>,
 }
 
+/// `big9.`: RRsets whose complete answer exceeds every small payload size,
+/// so that the advertised-size sweep meets truncation at every fill level
+/// (records of 16, 17 and 27 octets).
+fn big9_zone() -> quandary::db::HashMapTreeZone {
+    let apex = wire::wname("big9.");
+    let mut recs = vec![
+        qd::Rec::new(&apex, t::SOA, c::IN, 300, &fixtures::soa_rdata("ns.big9.", "h.big9.", 1, 1, 1, 1, 60)),
+        qd::Rec::new(&apex, t::NS, c::IN, 300, &wire::wname("ns.big9.")),
+        qd::Rec::new(&wire::wname("ns.big9."), t::A, c::IN, 300, &[192, 0, 2, 1]),
+    ];
+    for i in 0..120u8 {
+        recs.push(qd::Rec::new(&wire::wname("a.big9."), t::A, c::IN, 300, &[10, 9, 0, i]));
+        recs.push(qd::Rec::new(&wire::wname("x.big9."), t::TXT, c::IN, 300, &[4, b'x', b'y', b'z', i]));
+        recs.push(qd::Rec::new(&wire::wname("*.w.big9."), t::AAAA, c::IN, 300, &[0x20, 1, 0xd, 0xb8, 0, 0, 0, 0, 0, 0, 0, 0, 0, 0, 9, i]));
+    }
+    qd::build_zone(&apex, c::IN, quandary::db::zone::GluePolicy::Narrow, &recs).unwrap_or_else(|e| panic!("big9 zone: record {} rejected: {}", e.0, e.1))
+}
+
+const SWEEP_QUERIES: &[(&str, u16)] = &[("a.big9.", t::A), ("x.big9.", t::TXT), ("q.w.big9.", t::AAAA), ("a.big9.", t::ANY), ("a.t.", t::A)];
+
+fn build_sweep(qname: &str, qtype: u16, advertised: u16, dnssec_ok: bool) -> Vec<u8> {
+    MsgBuilder::new(0x0909, 0x0100).question(&wire::wname(qname), qtype, c::IN).rr(3, &[0], t::OPT, advertised, if dnssec_ok { 0x8000 } else { 0 }, &[]).build()
+}
+
 fn servers() -> Vec<Srv> {
     [512u16, 1232, 65535]
         .iter()
-        .map(|&size| Srv { size, server: fixtures::make_server(qd::catalog_of(vec![fixtures::std_zone()]), ServerCfg { name: "c09", edns_size: size, tsig: false, rrl: None }) })
+        .map(|&size| Srv { size, server: fixtures::make_server(qd::catalog_of(vec![fixtures::std_zone(), big9_zone()]), ServerCfg { name: "c09", edns_size: size, tsig: false, rrl: None }) })
         .collect()
 }
 
@@ -272,6 +299,37 @@ pub fn run(ctx: Ctx) -> ! {
             }
         }
     });
+    // Advertised-size sweep: valid OPT (root owner, version 0) whose CLASS
+    // takes every value 0..=2100 plus a few large ones, on queries whose
+    // complete answers are 2-3 KB: the response is truncated at every fill
+    // level relative to the space reserved for the OPT.
+    let mut sizes: Vec<u16> = (0..=2100u16).collect();
+    sizes.extend([4095, 4096, 16383, 16384, 32768, 65534, 65535]);
+    let chunks: Vec<&[u16]> = sizes.chunks(64).collect();
+    ctx.par_for_each(&chunks, |l: &mut Local, chunk| {
+        for &adv in chunk.iter() {
+            for (qn, qt) in SWEEP_QUERIES {
+                for dnssec_ok in [false, true] {
+                    let req = build_sweep(qn, *qt, adv, dnssec_ok);
+                    for srv in &srvs {
+                        for tp in [Tp::Udp, Tp::Tcp] {
+                            l.tick();
+                            let (class, v) = evaluate(srv, &req, tp);
+                            let full = || json!({"request": hex(&req), "server_size": srv.size, "tp": tp.name(), "layout": "size-sweep", "qname": qn, "qtype": qt, "advertised": adv});
+                            l.outcome(&format!("sweep:{class}"), full);
+                            if let Some((key, detail)) = v {
+                                let mut cse = full();
+                                cse["detail"] = detail;
+                                l.violation(&key, cse);
+                            }
+                        }
+                    }
+                }
+            }
+        }
+    });
+    ctx.set_extra("size_sweep_advertised_values", json!(sizes.len()));
+    ctx.set_extra("size_sweep_queries", json!(SWEEP_QUERIES.iter().map(|(n, t)| format!("{n} type{t}")).collect::<Vec<_>>()));
     ctx.set_extra("layouts", json!(lays.len()));
     ctx.set_extra("layouts_with_varied_opt", json!(n_with));
     ctx.set_extra("opt_variants", json!(variants.len()));
@@ -279,7 +337,7 @@ pub fn run(ctx: Ctx) -> ! {
     ctx.assume("qvlib::wire decoder is correct; the std fixture zone answers a.t. A with data (so 'no answer data' is observable)");
     ctx.finish(
         "exploration",
-        "query a.t. A + every layout of <= 3 records over {AN,NS,AR} x {ordinary, varied OPT, second OPT, undelimitable, TSIG(unknown key)} (sections in order, <= 1 of each pseudo record) x full product of the varied OPT's owner(5) x class x ext-rcode octet x version octet x flags x RDATA(4) x 3 server payload sizes x {UDP,TCP}; oracle = in-order scanner deciding whether an additional-section OPT was reached + C09 statement",
+        "query a.t. A + every layout of <= 3 records over {AN,NS,AR} x {ordinary, varied OPT, second OPT, undelimitable, TSIG(unknown key)} (sections in order, <= 1 of each pseudo record) x full product of the varied OPT's owner(5) x class x ext-rcode octet x version octet x flags x RDATA(4) x 3 server payload sizes x {UDP,TCP}; plus a valid OPT whose advertised size takes every value 0..=2100 (and 7 larger ones) x 5 queries with 2-3 KB answers x DO bit x 3 server sizes x {UDP,TCP}; oracle = in-order scanner deciding whether an additional-section OPT was reached + C09 statement",
         true,
     )
 }
